@@ -19,6 +19,7 @@ import (
 	"strconv"
 	"strings"
 	"sync"
+	"sync/atomic"
 	"time"
 
 	"github.com/coredhcp/coredhcp/plugins/allocators"
@@ -624,6 +625,40 @@ func runAllocConc(t *Trace, seed int64, rounds int) error {
 			}(w)
 		}
 		wg.Wait()
+		// racing frees: several goroutines free the SAME outstanding block at once; exactly one
+		// may succeed (the clear observation point fires once per successful Free)
+		x := &allocRun{g: g, r: rand.New(rand.NewSource(seed + int64(round)))}
+		a, err = g.mk() // a fresh allocator: the stress above may have left the pool full
+		if err != nil {
+			return err
+		}
+		t.Emit(Ev{"ev": "reset", "kind": g.kind, "N": g.n, "page": g.page, "geom": g.name, "domain": "conc"})
+		for i := 0; i < 400; i++ {
+			hn, _ := x.hintNet(letter{op: "alloc", k: "none"})
+			n, err := a.Allocate(hn)
+			if err != nil {
+				break
+			}
+			var ready, start int32
+			var fw sync.WaitGroup
+			for w := 0; w < 4; w++ {
+				fw.Add(1)
+				go func() {
+					defer fw.Done()
+					me := goid()
+					atomic.AddInt32(&ready, 1)
+					for atomic.LoadInt32(&start) == 0 { // spin barrier: all four leave together
+					}
+					err := a.Free(n)
+					t.Emit(Ev{"ev": "ret", "g": me, "op": "free", "ok": err == nil, "b": -1})
+				}()
+			}
+			for atomic.LoadInt32(&ready) < 4 {
+				runtime.Gosched()
+			}
+			atomic.StoreInt32(&start, 1)
+			fw.Wait()
+		}
 	}
 	return nil
 }
